@@ -77,7 +77,10 @@ func cmdDNSPool(args []string) error {
 	net(func(r *aRule) { r.Mcase = "on" })
 	net(func(r *aRule) { r.Third = "off" })
 	net(func(r *aRule) { r.RestDom = hostsOf([]string{"x.test"}) })
-	net(func(r *aRule) { r.White = true; r.DocOpts = []string{"elemhide", "jsinject", "urlblock", "content", "extension"} })
+	net(func(r *aRule) {
+		r.White = true
+		r.DocOpts = []string{"elemhide", "jsinject", "urlblock", "content", "extension"}
+	})
 	net(func(r *aRule) { r.PermTypes = []string{"script"}; r.RestTypes = []string{"image"} })
 	net(func(r *aRule) { r.RestTypes = []string{"image"} }) // one-sided content-type list: still DNS-applicable
 	// browser-only modifiers next to $important / $badfilter: still not DNS-applicable
@@ -356,6 +359,20 @@ func cmdDriveDNSLists(args []string) error {
 			entries = append(entries, entry{text: t, net: x})
 		case *rules.HostRule:
 			entries = append(entries, entry{text: t, host: x})
+		}
+	}
+	{
+		var names []string
+		for i := 0; i < 400; i++ {
+			names = append(names, fmt.Sprintf("alias%03d.long.example", i))
+		}
+		t := "10.9.8.7 " + strings.Join(names, " ")
+		if r, err := rules.NewRule(t, 1); err == nil {
+			if hr, ok := r.(*rules.HostRule); ok {
+				entries = append(entries, entry{text: t, host: hr})
+				kept = append(kept, t)
+				hostnames = append(hostnames, names[3], names[200], names[399])
+			}
 		}
 	}
 	idOf := map[string]int{}
